@@ -130,3 +130,84 @@ package wal
 //@   ensures[C12.roundtrip-data] g != nil && Enc(bs, 0, g) && Mono(0, g, len(bs)) ==> len(l.Data) == len(g.Data) && eqbytes(l.Data, 0, g.Data, 0, len(g.Data))
 //@   ensures[C12.roundtrip-ext] g != nil && Enc(bs, 0, g) && Mono(0, g, len(bs)) ==> len(l.Extensions) == len(g.Extensions) && eqbytes(l.Extensions, 0, g.Extensions, 0, len(g.Extensions))
 //@   ensures[C12.roundtrip-time] g != nil && Enc(bs, 0, g) && Mono(0, g, len(bs)) ==> result == nil && l.AppendedAt == g.AppendedAt
+
+// ---------------------------------------------------------------------------
+// wal.go / state.go — state publication and metadata transactions
+// ---------------------------------------------------------------------------
+
+//@ atomic WAL.s *state
+//@ atomic state.finalizer func()
+
+//@ func (*WAL).loadState
+//@   inline
+//@ func (*state).clone
+//@   inline
+
+//@ -- reference counting of state snapshots: the finalizer runs when the last
+//@ -- reader releases a replaced state (timing is outside the sequential model)
+//@ func (*state).acquire
+//@   inline
+//@ func (*state).release
+//@   trusted reference counting and finalizer timing are schedule dependent (DESIGN.md §7)
+//@   assigns s.refCount, s.finalizer
+//@   ensures true
+
+//@ func (*state).Persistent
+//@   trusted contents of the persisted view are covered by the segment-map model (not yet under contract)
+//@   ensures true
+
+//@ -- function-type contract of a metadata transaction body
+//@ func stateTxn(s)
+//@   assigns s
+//@   ensures true
+
+//@ func (*WAL).mutateStateLocked
+//@   props C04 C10
+//@   requires w.metaDB != nil && tx != nil && av(w.s) != nil
+//@   assigns w.s, g_commits, av(w.s).refCount, av(w.s).finalizer
+//@   site atomic-store(s) requires[C10.published-after-commit] g_commits == old(g_commits) + 1
+//@   ensures[C04.one-commit-per-txn] result == nil ==> g_commits == old(g_commits) + 1
+//@   ensures[C10.atomic] result != nil ==> g_commits == old(g_commits)
+//@   ensures[C10.published-only-on-success] result != nil ==> av(w.s) == old(av(w.s))
+
+//@ -- first/last index of a state snapshot; uint64(g_obs_first) / uint64(g_obs_last) remember the
+//@ -- values a caller observed (so that DeleteRange's classification can be
+//@ -- stated over them)
+//@ func (*state).firstIndex
+//@   trusted derivation of first/last from the segment map is covered by the segment-map model (not yet under contract)
+//@   ensures true
+//@   ghostset g_obs_first = result
+//@ func (*state).lastIndex
+//@   trusted derivation of first/last from the segment map is covered by the segment-map model (not yet under contract)
+//@   ensures true
+//@   ghostset g_obs_last = result
+//@ func (*state).getTailInfo
+//@   trusted covered by the segment-map model (not yet under contract)
+//@   ensures true
+//@ func (*state).getLog
+//@   trusted covered by the segment-map model (not yet under contract)
+//@   ensures true
+
+//@ func (*WAL).acquireState
+//@   inline
+//@ func (*WAL).awaitRotationLocked
+//@   inline
+
+//@ func (*WAL).truncateHeadLocked
+//@   trusted transaction bodies are covered by the segment-map model (not yet under contract)
+//@   requires[C05.head-newmin-no-overflow] newMin != 0
+//@   assigns g_commits, w.s
+//@   ensures result != nil ==> g_commits == old(g_commits) || g_commits == old(g_commits) + 1
+//@ func (*WAL).truncateTailLocked
+//@   trusted transaction bodies are covered by the segment-map model (not yet under contract)
+//@   assigns g_commits, w.s
+//@   ensures true
+
+//@ func (*WAL).DeleteRange
+//@   props C05 C14
+//@   requires w.metaDB != nil && av(w.s) != nil
+//@   assigns g_commits, w.s, w.awaitRotate, av(w.s).refCount, av(w.s).finalizer
+//@   ensures[C14.deleterange-closed] w.closed != 0 ==> result == types.ErrClosed && g_commits == old(g_commits)
+//@   ensures[C05.classify-empty] w.closed == 0 && min > max ==> result == nil && g_commits == old(g_commits)
+//@   ensures[C05.classify-outside] w.closed == 0 && min <= max && (max < uint64(g_obs_first) || min > uint64(g_obs_last)) ==> result == nil && g_commits == old(g_commits)
+//@   ensures[C05.classify-middle] w.closed == 0 && min <= max && !(max < uint64(g_obs_first) || min > uint64(g_obs_last)) && min > uint64(g_obs_first) && max < uint64(g_obs_last) ==> result != nil && g_commits == old(g_commits)
